@@ -216,3 +216,52 @@ def central_differences(fun, L, h):
     Lm[idx] -= h
     G[idx] = (fun(Lp) - fun(Lm)) / (2 * h)
   return G
+
+
+# ----------------------------------------------------------------------------- LSML
+
+def lsml_objective(M, vab, vcd, w, prior_inv):
+  dab = np.einsum('ij,jk,ik->i', vab, M, vab)
+  dcd = np.einsum('ij,jk,ik->i', vcd, M, vcd)
+  hinge = np.where(dab > dcd, (np.sqrt(np.maximum(dab, 0)) - np.sqrt(np.maximum(dcd, 0))) ** 2, 0.0)
+  sign, logdet = np.linalg.slogdet(M)
+  if sign <= 0:
+    return float('inf')
+  return float((w * hinge).sum() + np.trace(M.dot(prior_inv)) - logdet)
+
+
+def lsml_gradient(M, vab, vcd, w, prior_inv):
+  G = prior_inv - np.linalg.inv(M)
+  dab = np.einsum('ij,jk,ik->i', vab, M, vab)
+  dcd = np.einsum('ij,jk,ik->i', vcd, M, vcd)
+  for i in range(len(w)):
+    if dab[i] > dcd[i] and dcd[i] > 0:
+      G = G + w[i] * ((1 - math.sqrt(dcd[i] / dab[i])) * np.outer(vab[i], vab[i]) +
+                      (1 - math.sqrt(dab[i] / dcd[i])) * np.outer(vcd[i], vcd[i]))
+  return G
+
+
+def lsml_descend(M, vab, vcd, w, prior_inv, iters=150):
+  """own gradient descent with backtracking on the documented objective, started at M"""
+  f = lsml_objective(M, vab, vcd, w, prior_inv)
+  step = 1.0
+  for _ in range(iters):
+    G = lsml_gradient(M, vab, vcd, w, prior_inv)
+    G = (G + G.T) / 2
+    gn = np.linalg.norm(G)
+    if gn < 1e-12:
+      break
+    improved = False
+    while step > 1e-14:
+      Mn = M - step * G
+      ev = np.linalg.eigvalsh(Mn)
+      fn = lsml_objective(Mn, vab, vcd, w, prior_inv) if ev.min() > 0 else float('inf')
+      if fn < f - 1e-4 * step * gn ** 2:
+        M, f = Mn, fn
+        step *= 2.0
+        improved = True
+        break
+      step /= 2.0
+    if not improved:
+      break
+  return M, f
